@@ -460,8 +460,10 @@ class LowerToIRVisitor(Visitor.DefaultVisitor):
 
                 assert isinstance(value, LinearIR.Value)
 
+                # The shuffle yields the complete new value of the swizzled
+                # vector, not just the components that are written
                 si = LinearIR.ShuffleInstruction(
-                    ctx.AdaptType(expr.GetType()),
+                    value.Type,
                     value,
                     ctx.AssignmentValue,
                     indices,
